@@ -21,12 +21,18 @@
 //!        digits (asserted); backup, REOPEN, backup of the unchanged tree: no new file under d/, written_blocks == 0,
 //!        replaced_damaged_blocks == 0, no error, identical entries; the same for a resumed interrupted backup.
 //!        Input {"case": "unchanged"|"resumed"}.
+//!        Round 7, case "dated": files below and above the small-file cap whose mtimes lie before 1970 with a non-zero
+//!        sub-second part (-1.5 s, -86400.25 s, 1901, 1960, -1 ns), on whole negative seconds, exactly at the epoch, and
+//!        far in the future: the index records the source's mtime (floor seconds + non-negative nanoseconds); after a
+//!        REOPEN the second and third backup of the untouched tree report every file unchanged (change callback),
+//!        write nothing, record identical entries; restore puts the same mtimes back.
 //!  * `odd_names_roundtrip` (C08, C01): file / directory / symlink names with TAB, newline, 0x01, 0x7f, leading '-',
 //!        spaces, backslash, glob characters, quotes, 4-byte UTF-8, combining characters and 255 bytes: backup ->
 //!        list (every source path exactly once, strictly increasing) -> restore (bytes equal) -> validate silent,
 //!        under three option sets; then an interrupted second version cut after every hunk (one entry per hunk):
 //!        the stitched listing is the version's own readable entries followed by the previous version's entries
 //!        after the last of them.  Input {"options": n, "phase": ".."} | {"cut_after_hunks": k}.
+//!        Round 7: files and directories whose names extend the name of a symlink beside them (`-rf ->`, `-rfx`, `-rf.d/`).
 
 use std::collections::{BTreeMap, BTreeSet};
 use std::os::unix::fs::symlink;
@@ -598,8 +604,126 @@ fn unchanged_backup_writes_nothing(only: Option<&Value>) -> R {
                     "a backup of an unchanged tree does not record the addresses of the earlier version");
             }
         }
-        Ok(None)
+        dated_unchanged(only, tmp.path()).await
     })
+}
+
+fn lmtime(p: &Path) -> Result<(i64, u32), String> {
+    let md = su!(std::fs::symlink_metadata(p));
+    let t = filetime::FileTime::from_last_modification_time(&md);
+    Ok((t.unix_seconds(), t.nanoseconds()))
+}
+
+/// Case "dated" of `unchanged_backup_writes_nothing`: an untouched tree whose files carry unusual modification times.
+async fn dated_unchanged(only: Option<&Value>, tmp: &Path) -> R {
+    const K: &str = "unchanged_backup_writes_nothing";
+    if skip(only, "case", &json!("dated")) {
+        return Ok(None);
+    }
+    let y1901 = -2_147_400_000i64; // 1901-12-14, just above the 32-bit minimum
+    let dates: Vec<(&str, i64, u32)> = vec![
+        ("minus_1_5_s", -2, 500_000_000),
+        ("minus_86400_25_s", -86_401, 750_000_000),
+        ("minus_10_h_fraction", -36_000, 123_456_789),
+        ("minus_1_ns", -1, 999_999_999),
+        ("minus_1_s_plus_1_ns", -1, 1),
+        ("y1901_fraction", y1901, 999_999_999),
+        ("y1960_fraction", -315_619_200, 250_000_000),
+        ("epoch", 0, 0),
+        ("epoch_plus_1_ns", 0, 1),
+        ("minus_1_s_whole", -1, 0),
+        ("minus_10_h_whole", -36_000, 0),
+        ("y1901_whole", y1901, 0),
+        ("recent_fraction", 1_600_000_000, 123_456_789),
+        ("y2100_whole", 4_102_444_800, 0),
+        ("y2200_fraction", 7_258_118_400, 123),
+    ];
+    let src = tmp.join("dated_src");
+    let opts = || BackupOptions { small_file_cap: 100, max_entries_per_hunk: 7, ..BackupOptions::default() };
+    let mut want: BTreeMap<String, (i64, u32)> = BTreeMap::new();
+    for (name, _, _) in &dates {
+        put(&src, &format!("small_{name}"), &content(name, 20 + name.len()))?; // below the cap: combined blocks
+        put(&src, &format!("big_{name}"), &content(name, 300 + name.len()))?; // above the cap: a block of its own
+        put(&src, &format!("dir_{name}/inner"), &content(name, 150))?;
+    }
+    pin_all(&src, 1_600_000_000, 0)?;
+    for (name, secs, nanos) in &dates {
+        for rel in [format!("small_{name}"), format!("big_{name}"), format!("dir_{name}/inner"), format!("dir_{name}")] {
+            su!(filetime::set_file_mtime(src.join(&rel), filetime::FileTime::from_unix_time(*secs, *nanos)));
+            if lmtime(&src.join(&rel))? != (*secs, *nanos) {
+                return Err(format!("setup: the filesystem does not keep mtime {secs}.{nanos:09} of {rel} (reads back {:?})", lmtime(&src.join(&rel))?));
+            }
+            want.insert(format!("/{rel}"), (*secs, *nanos));
+        }
+    }
+    let nfiles = dates.len() * 3;
+    let input = |path: Option<&String>, phase: &str| json!({"case": "dated", "phase": phase, "path": path, "source_mtime": path.and_then(|p| want.get(p)).map(|w| json!([w.0, w.1]))});
+    let apath = tmp.join("dated_archive");
+    {
+        let archive = su!(Archive::create_path(&apath).await);
+        let m = TestMonitor::arc();
+        match conserve::backup(&archive, &src, &opts(), m.clone()).await {
+            Ok(st) if st.errors == 0 && m.take_errors().is_empty() => {}
+            other => return found(K, input(None, "first backup"), format!("{:?}", other.map(|s| s.errors).map_err(|e| e.to_string())), "Ok, no error", "backing up files with unusual (but legal) modification times failed or reported errors"),
+        }
+    }
+    let blocks = block_set(&apath);
+    let e0 = entries(&su!(Archive::open_path(&apath).await), BandSelectionPolicy::Specified(bid(0)), Apath::root(), TestMonitor::arc()).await?;
+    for e in &e0 {
+        let p = e.apath.to_string();
+        if let Some(w) = want.get(&p) {
+            if (e.mtime, e.mtime_nanos) != *w {
+                return found(K, input(Some(&p), "index"), format!("recorded mtime of {p}: ({}, {})", e.mtime, e.mtime_nanos), &format!("{w:?} (seconds rounded down, nanoseconds 0..1e9)"), "the modification time recorded for an entry is not the source's");
+            }
+        }
+    }
+    for round in 1..=2u32 {
+        // a later run of the program: the archive is opened afresh; nothing in the tree was touched
+        let archive = su!(Archive::open_path(&apath).await);
+        let changed: Arc<Mutex<Vec<String>>> = Arc::new(Mutex::new(Vec::new()));
+        let c2 = changed.clone();
+        let mut o = opts();
+        o.change_callback = Some(Box::new(move |ch| {
+            if !ch.change.is_unchanged() {
+                c2.lock().unwrap().push(ch.to_string());
+            }
+            Ok(())
+        }));
+        let m = TestMonitor::arc();
+        let res = conserve::backup(&archive, &src, &o, m.clone()).await;
+        let merrs = m.take_errors();
+        let changed = changed.lock().unwrap().clone();
+        let now = block_set(&apath);
+        let new_files: Vec<&String> = now.difference(&blocks).collect();
+        let first_changed: Option<String> = changed.first().map(|c| c[2..].to_string());
+        let phase = format!("backup {} of the untouched tree (archive reopened)", round + 1);
+        let st = match res {
+            Ok(st) => st,
+            Err(e) => return found(K, input(None, &phase), format!("{phase} failed: {e}"), "Ok, nothing written", "backing up an untouched tree fails"),
+        };
+        if !changed.is_empty() || st.written_blocks != 0 || st.errors != 0 || !merrs.is_empty() || !new_files.is_empty() || st.unmodified_files != nfiles {
+            return found(K, input(first_changed.as_ref(), &phase), format!("{phase}: reported as changed {changed:?}; written_blocks = {}, unmodified_files = {} of {nfiles}, errors = {} (+{}), {} new file(s) under d/", st.written_blocks, st.unmodified_files, st.errors, merrs.len(), new_files.len()),
+                "every file reported unchanged, written_blocks = 0, no new file under d/", "a file whose modification time lies before 1970 with a fraction of a second (or at another unusual date) is taken for modified by every later backup and stored again");
+        }
+        let e1 = entries(&archive, BandSelectionPolicy::Specified(bid(round)), Apath::root(), TestMonitor::arc()).await?;
+        if e1 != e0 {
+            let differ: Vec<String> = e0.iter().zip(e1.iter()).filter(|(a, b)| a != b).take(3).map(|(a, _)| a.apath.to_string()).collect();
+            return found(K, input(differ.first(), &phase), format!("{phase}: {} entries against {}; first entries that differ: {differ:?}", e1.len(), e0.len()), "identical entries and addresses", "a backup of an untouched tree does not record the entries of the earlier version");
+        }
+    }
+    // restore puts the same times back
+    let archive = su!(Archive::open_path(&apath).await);
+    let dest = tmp.join("dated_dest");
+    if let Some(d) = restore_mismatch(&archive, BandSelectionPolicy::LatestClosed, &dest, &tree_snapshot(&src)).await? {
+        return found(K, input(None, "restore"), d, "the source tree", "a tree with unusual modification times does not restore exactly");
+    }
+    for (p, w) in &want {
+        let g = lmtime(&dest.join(&p[1..]))?;
+        if g != *w {
+            return found(K, input(Some(p), "restore"), format!("restored mtime of {p}: {g:?}"), &format!("{w:?}"), "restore does not put back the modification time the source had");
+        }
+    }
+    Ok(None)
 }
 
 // ------------------------------------------------------------------------------------------------------ C08 / C01
@@ -610,6 +734,8 @@ fn odd_source(root: &Path, version: u32) -> Result<(), String> {
         "a1".into(), "a2".into(), "a3".into(), "b1".into(), "b\t2".into(), "b3".into(), "new\nline".into(), "\u{1}ctl".into(), "del\u{7f}".into(), "esc\u{1b}[31m".into(), "-leading".into(), "--".into(), "sp ace".into(),
         " lead".into(), "trail ".into(), "back\\slash".into(), "st*r".into(), "qu?stion".into(), "[bracket]".into(), "{brace}".into(), "quote'\"".into(), "four\u{1F600}byte".into(), "combin\u{0301}ing".into(),
         "e\u{301}".into(), "\u{e9}".into(), "~tilde".into(), "#hash".into(), "$dollar".into(), "per%cent".into(), "z\u{85}nel".into(), long_file, "c1".into(), "c2".into(), "z2".into(), "z3".into(),
+        // round 7: siblings whose names extend the name of one of the symlinks made below (they are not below the link)
+        "ln\tk.x".into(), "-rfx".into(), "l \u{1F600}x".into(),
     ];
     let body = |n: &str| -> Vec<u8> {
         let mut b = content(n, 10 + n.len() % 40);
@@ -621,7 +747,7 @@ fn odd_source(root: &Path, version: u32) -> Result<(), String> {
     for n in &names {
         put(root, n, &body(n))?;
     }
-    for (d, f) in [("dir\twith tab", "in\nner"), ("dir\twith tab", "plain"), ("dir\nnl", "x"), (" ", " "), ("-d", "-f"), (long_dir.as_str(), "inside")] {
+    for (d, f) in [("dir\twith tab", "in\nner"), ("dir\twith tab", "plain"), ("dir\nnl", "x"), (" ", " "), ("-d", "-f"), (long_dir.as_str(), "inside"), ("link\nnl.d", "in"), ("-rf.d", "deep")] {
         put(root, &format!("{d}/{f}"), &body(f))?;
     }
     su!(std::fs::create_dir_all(root.join("empty\u{1}dir")));
